@@ -146,10 +146,16 @@ def check(chk: Check) -> None:
             cont = ('param', params[fm['container_idx']])
             for p in normal:
                 aug = [e for e in p.events if e.kind == 'aug_sub' and freeze(e.obj) == cont]
-                if len(aug) != 1:
-                    problems.append('%r performs %d in-place updates of the container' % (op, len(aug)))
-                elif aug[0].op != op[:-1]:
-                    problems.append('%r is implemented with `%s=`' % (op, aug[0].op))
+                st = [e for e in p.events if e.kind == 'store_sub' and freeze(e.obj) == cont]
+                if len(aug) == 1 and not st:
+                    if aug[0].op != op[:-1]:
+                        problems.append('%r is implemented with `%s=`' % (op, aug[0].op))
+                elif len(st) == 1 and not aug:
+                    v = freeze(st[0].value)
+                    if not (isinstance(v, tuple) and v[:2] == ('binop', op[:-1]) and isinstance(v[2], tuple) and v[2][:2] == ('sub', cont)):
+                        problems.append('%r stores %s, not container[key] %s value' % (op, show(v), op[:-1]))
+                else:
+                    problems.append('%r performs %d in-place updates and %d stores of the container' % (op, len(aug), len(st)))
             chk.require(not problems, R1, '%s [op=%r]' % (q, op), fi.where, '; '.join(sorted(set(problems))) or 'container[key] %s value' % op)
 
     # --------------------------------------------------------------------- R2
